@@ -209,10 +209,11 @@ def _unit(bounded, maxn):
     log.append(dict(pattern="declarations before `VertexQueue queue;`", replacement="", fired=1, expected=1, kind="drop",
                     note="typedefs, the dist / pred vectors (dist: unspecified contents - every read follows a write; pred: every flag false) and their property maps, the closed_plus object"))
     body = body[i:]
+    body = X.drop_local_const(body, log)
     body = X.canon(body, [(r"Vertex (\w+) = queue\.front\(\);", ["u"]), (r"size_t (\w+) = boost::get\(dist_map, u\);", ["d_u"]),
                           (r"auto (\w+) = boost::out_edges\(u, g\);", ["eiRange"]), (r"for \(auto (\w+) = eiRange\.first;", ["ei"]),
                           (r"auto (\w+) = \*ei;", ["e"]), (r"auto (\w+) = boost::target\(e, g\);", ["w"]),
-                          (r"const std::size_t (\w+) = combine\(", ["c"]), (r"bool (\w+) = std::get<0>\(boost::get\(pred_map, w\)\);", ["visited_w"])], log)
+                          (r"std::size_t (\w+) = combine\(", ["c"]), (r"bool (\w+) = std::get<0>\(boost::get\(pred_map, w\)\);", ["visited_w"])], log)
     body = X.rewrite(body, [
         (r"VertexQueue queue;", "", 1, "container-api", "std::queue -> array Q + head/tail (empty on entry)"),
         (r"boost::put\(dist_map, s, size_t\(\)\);", "DIST[vp_s] = 0;", 1, "container-api", ""),
@@ -231,7 +232,7 @@ def _unit(bounded, maxn):
         (r"auto e = \*ei;", "size_t e = out_edge(u, ei);", 1, "container-api", ""),
         (r"auto w = boost::target\(e, g\);", "size_t w = out_target(u, ei);", 1, "container-api", "far endpoint of the out-edge at this slot"),
         (r"w = boost::source\(e, g\);", "w = u;", 1, "container-api", "source of an out-edge of u is u (contract of boost::out_edges)"),
-        (r"const std::size_t c = combine\(d_u, 1\);", "const size_t c = closed_plus(d_u, 1);", 1, "overload-resolution", "closed_plus<size_t>::operator() -> its contract K12"),
+        (r"std::size_t c = combine\(d_u, 1\);", "const size_t c = closed_plus(d_u, 1);", 1, "overload-resolution", "closed_plus<size_t>::operator() -> its contract K12"),
         (r"bool visited_w = std::get<0>\(boost::get\(pred_map, w\)\);", "bool visited_w = PREDF[w];", 1, "container-api", ""),
         (r"boost::put\(dist_map, w, c\);", "DIST[w] = c;", 1, "container-api", ""),
         (r"boost::put\(pred_map, w, std::make_tuple\(true, e\)\);", "PREDF[w] = 1; PREDE[w] = e; PU[w] = u;", 1, "ghost", "pred entry + ghost: discovered from u"),
